@@ -12,6 +12,8 @@ Directives (one per line, arguments shlex-style key=value):
   //@semi file=.. kind=const|static|type name=N [flags=..]
   //@carve file=.. [impl=..] fn=f from="regex" to="regex" [flags=..]
   //@autofns file=.. [impl=..] [flags=..]   (slot for helper fns pulled in on demand, see engine.auto_extract)
+  //@autosemi file=..                         (slot for module-level const/static items pulled in on demand)
+  carve: exclude_to=1 stops before the text matched by `to`
 
 flags: nopub (strip visibility), deasync, droplog (remove log macro statements),
        keeppub.  Default for every directive: nopub.
@@ -79,7 +81,7 @@ def render(template_text, repo, ex):
             out.append(ln)
             i += 1
             continue
-        mo = re.match(r'//@(fn|item|semi|carve|errorcarrier|autofns)\s+(.*)$', st)
+        mo = re.match(r'//@(fn|item|semi|carve|errorcarrier|autofns|autosemi)\s+(.*)$', st)
         if not mo:
             raise rsx.Unsupported('bad directive: ' + st)
         kind, rest = mo.group(1), mo.group(2)
@@ -101,7 +103,20 @@ def render(template_text, repo, ex):
         flags = set((a.get('flags') or '').split(',')) - {''}
         src = rsx.Src.load(repo + '/' + a['file'])
         indent = re.match(r'\s*', ln).group(0)
-        if kind == 'autofns':
+        if kind == 'autosemi':
+            # module-level const/static items the extracted code names but the template does not
+            for nm in ex.auto.get((a['file'], '#semi'), []):
+                for k2 in ('const', 'static'):
+                    try:
+                        s0, e0 = src.semi_item(k2, nm)
+                    except rsx.LostAnchor:
+                        continue
+                    text = src.text[s0:e0 + 1]
+                    ex.log_span('%s::%s %s (auto-extracted)' % (a['file'], k2, nm), src, s0, text)
+                    ex.drop('%s %s auto-extracted (named by extracted code, not in the template)' % (k2, nm))
+                    out.append(indent + _apply_flags(text, flags, ex, nm))
+                    break
+        elif kind == 'autofns':
             # helper functions of the same impl that the extracted functions call but the template does
             # not name (e.g. introduced by a refactor): pasted verbatim, on demand (engine retries after
             # a `no method named X` / `cannot find function X` compile error)
@@ -224,7 +239,7 @@ def render(template_text, repo, ex):
             out.append('\n'.join(indent + g for g in gen))
         elif kind == 'carve':
             fn = src.fn_item(a['fn'], a.get('impl'))
-            text = rsx.carve(fn, a['from'], a['to'])
+            text = rsx.carve(fn, a['from'], a['to'], include_to=('exclude_to' not in a))
             sel = '%s::%s::%s[carve %s .. %s]' % (a['file'], a.get('impl', '-'), a['fn'], a['from'], a['to'])
             ex.log_span(sel, src, fn.s, text)
             ex.fns.append(sel)
